@@ -303,6 +303,7 @@ class AlgState:
         self.spec = spec
         self.added_to = None
         self.has_params = spec["params"] is not None
+        self.cur_params = copy.deepcopy(spec["params"])
         self.ran = False
         self.mpe = "no"  # no | yes | unknown
         self.mpe_args = None
@@ -498,14 +499,16 @@ def gen_mpe_args(rng, cls, ref_alg, fs, nmodes=None, hopeless=False):
 # ---------------------------------------------------------------------------------------------
 # operation generator
 # ---------------------------------------------------------------------------------------------
-def gen_swarm(rng, mode):
+def gen_swarm(rng, mode, tier="quick"):
     W = {"add": rng.choice([2, 3, 4]), "run": rng.choice([3, 4, 6]), "run_all": rng.choice([0.5, 1, 2]),
-         "mpe": rng.choice([2, 3, 4]), "set_params": rng.choice([0, 0.5, 1]), "preproc": rng.choice([0, 0.5, 1.5]),
+         "mpe": rng.choice([2, 3, 4]), "set_params": rng.choice([0.5, 1, 2]), "preproc": rng.choice([0, 0.5, 1.5]),
          "save": rng.choice([0, 0.5, 1]), "load_check": rng.choice([0, 0.5, 1]), "restart": rng.choice([0, 0.5, 1]),
          "save_crash": rng.choice([0, 0.3, 0.8]), "poser": rng.choice([0.5, 1, 2]) if mode != "preger" else 0,
          "bare_gate": rng.choice([0, 0.3])}
     r = rng.random()
     nops = rng.randint(3, 5) if r < 0.3 else rng.randint(5, 8) if r < 0.75 else rng.randint(8, 12)
+    if tier == "thorough" and rng.random() < 0.25:
+        nops = rng.randint(10, 18)
     faulty = rng.random() < 0.5
     return {"w": W, "nops": nops, "faulty": faulty, "pfault": rng.choice([0.15, 0.3]), "epilogue": faulty or rng.random() < 0.3}
 
@@ -555,10 +558,28 @@ def gen_op(rng, wd: World, swarm, step, script):
             cand = [i for i, a in enumerate(w["algs"]) if a["home"] == si]
             if not cand:
                 continue
-            ai = rng.choice(cand)
+            ran = [i for i in cand if wd.st[i].ran]
+            ai = rng.choice(ran) if ran and rng.random() < 0.7 else rng.choice(cand)
             nmin = min(min(s["ndat"]) for s in w["setups"])
             cmin = min(min(s["nch"]) for s in w["setups"])
-            return {"op": "set_params", "alg": ai, "params": gen_params(rng, w["algs"][ai]["cls"], nmin, cmin)}
+            cls = w["algs"][ai]["cls"]
+            new = gen_params(rng, cls, nmin, cmin)
+            cur = wd.st[ai].cur_params
+            if cur is not None and rng.random() < 0.6:
+                # change exactly one field (anything kept from the previous run under too coarse a key collides here)
+                keys = sorted(k for k in set(cur) | set(new) if k not in ("hc", "ordmin", "step", "calc_unc", "nb")
+                              and cur.get(k) != new.get(k))
+                if keys:
+                    kk = rng.choice(keys)
+                    twin = copy.deepcopy(cur)
+                    if kk in new:
+                        twin[kk] = new[kk]
+                    else:
+                        twin.pop(kk, None)
+                    new = twin
+            if wd.st[ai].added_to is not None and rng.random() < 0.6:
+                script.append(lambda r, wd2, si=wd.st[ai].added_to, nm=w["algs"][ai]["name"]: {"op": "run", "setup": si, "name": nm})
+            return {"op": "set_params", "alg": ai, "params": new}
         if k == "preproc":
             kind = rng.choice(["detrend", "decimate", "filter"])
             op = {"op": "preproc", "setup": si, "kind": kind}
@@ -766,6 +787,7 @@ def apply_op(wd: World, op, step):
         cls = _classes()[w["algs"][ai]["cls"]]
         wd.algs[ai].set_run_params(cls.RunParamCls(**copy.deepcopy(op["params"])))
         wd.st[ai].has_params = True
+        wd.st[ai].cur_params = copy.deepcopy(op["params"])
         if wd.st[ai].ran:
             wd.inc("probe.params_changed_after_run")
             wd.st[ai].stale = True
@@ -1342,7 +1364,7 @@ def run_case(seed, tier="quick", case=None, known=()):
     rng = random.Random(seed)
     if case is None:
         w = gen_world(rng)
-        swarm = gen_swarm(rng, w["mode"])
+        swarm = gen_swarm(rng, w["mode"], tier)
         ops_in = None
         nops = swarm["nops"]
         script = poser_script(rng, w) if w["mode"] == "poser" else []
